@@ -39,6 +39,16 @@ def cases(ctx):
         r = ctx.rng("C10g3", j)
         c = gen.rand_circuit(r, n_in=r.randint(1, 5), n_gates=r.randint(2, 10), max_fanin=4, consts=0.5, out_is_input=0.2)
         yield {"op": "ternary", "c": proj(c), "src": "G3"}
+        if j % 3 == 0:
+            # nets called like the nodes ternary() adds for another net: <n>_X, <n>_x_in_fi, <p>_is_0, <p>_not_x ...
+            import networkx as nx
+
+            ns = sorted(c.graph.nodes)
+            if len(ns) >= 3:
+                a, b, d = r.sample(ns, 3)
+                ren = {b: a + "_X", d: r.choice([a + "_x_in_fi", a + "_is_0", a + "_is_1", a + "_not_x", a + "_0_not_in_fi", a + "_X_0"])}
+                nx.relabel_nodes(c.graph, ren, copy=False)
+                yield {"op": "ternary", "c": proj(c), "src": "NAMES"}
 
 
 def run_case(case, ctx):
